@@ -12,6 +12,8 @@ import (
 	"strings"
 	"sync"
 	"time"
+
+	"golang.org/x/tools/go/ssa"
 )
 
 var verifDir = "/verif"
@@ -134,6 +136,9 @@ func genFor(p *Program, prop string, only string) ([]*FuncResult, []string) {
 			continue
 		}
 		fn := p.funcs[k.Pkg+"."+k.Name]
+		if fn == nil {
+			fn = p.resolveMethod(k.Pkg, k.Name)
+		}
 		if fn == nil {
 			problems = append(problems, fmt.Sprintf("contract %s: function not found in /repo (renamed or removed)", key))
 			continue
@@ -519,4 +524,32 @@ func implResults(p *Program, key string, k *Contract, only string) []*FuncResult
 		}
 	}
 	return out
+}
+
+// resolveMethod finds promoted methods (synthetic wrappers), "(*T).m" / "(T).m".
+func (p *Program) resolveMethod(pkgName, name string) *ssa.Function {
+	pkg := p.pkgs[pkgName]
+	if pkg == nil || !strings.HasPrefix(name, "(") {
+		return nil
+	}
+	cp := strings.Index(name, ").")
+	if cp < 0 {
+		return nil
+	}
+	tn, m := name[1:cp], name[cp+2:]
+	ptr := strings.HasPrefix(tn, "*")
+	tn = strings.TrimPrefix(tn, "*")
+	o, ok := pkg.Pkg.Scope().Lookup(tn).(*types.TypeName)
+	if !ok {
+		return nil
+	}
+	var t types.Type = o.Type()
+	if ptr {
+		t = types.NewPointer(t)
+	}
+	sel := p.prog.MethodSets.MethodSet(t).Lookup(pkg.Pkg, m)
+	if sel == nil {
+		return nil
+	}
+	return p.prog.MethodValue(sel)
 }
